@@ -42,7 +42,7 @@ class Lab:
         if self.unit:
             return f"{b}[{self.lo}]"
         if self.lo or self.hi:
-            return f"{b}[{self.lo}:{-self.hi if self.hi else ''}]"
+            return f"{b}[{self.lo}:{(self.hi[1] if isinstance(self.hi, tuple) else -self.hi) if self.hi else ''}]"
         return str(b)
 
 
@@ -170,6 +170,15 @@ class Extractor:
         if isinstance(st, ast.Assign):
             if len(st.targets) == 1 and isinstance(st.targets[0], ast.Subscript):
                 t0 = st.targets[0]
+                if isinstance(t0.value, ast.Name) and isinstance(self.env.get(t0.value.id), Slots):
+                    sl_ = self.env[t0.value.id]
+                    i = self.expr(t0.slice) if not isinstance(t0.slice, (ast.Tuple, ast.Slice)) else None
+                    if not (isinstance(i, SV) and not i.labels and getattr(i.e, "is_Integer", False) and 0 <= int(i.e) < len(sl_.items)):
+                        self.err("store into an np.empty array that is not `out[k] = block` with a constant k", st)
+                    if sl_.items[int(i.e)] is not None:
+                        self.err("block of an np.empty array stored twice", st)
+                    sl_.items[int(i.e)] = self.expr(st.value)
+                    return
                 if isinstance(t0.value, ast.Name) and isinstance(self.env.get(t0.value.id), list):
                     # item store into a python list (e.g. a target shape being built)
                     i = self.expr(t0.slice)
@@ -212,7 +221,9 @@ class Extractor:
             self.loop(st)
             return
         if isinstance(st, ast.Return):
-            self.returns.append((st, self.expr(st.value) if st.value is not None else None))
+            rv = self.expr(st.value) if st.value is not None else None
+            self.check_early_returns(rv, st)
+            self.returns.append((st, rv))
             raise _Returned()
         if isinstance(st, ast.If):
             if st.body and isinstance(st.body[-1], ast.Raise) and not st.orelse:
@@ -256,10 +267,49 @@ class Extractor:
                     return
             if self.select_branch(st):
                 return
+            if self.early_return(st):
+                return
             self.err("branch inside a recursion kernel", st)
         if isinstance(st, (ast.Pass, ast.Raise)):
             return
         self.err(f"statement {type(st).__name__}", st)
+
+    def early_return(self, st):
+        """`if n == const: return table` on an undecided scalar: the analysis goes on with the general path; at the function's real
+        return the early one is checked to be the same - every store after this point must fall outside the table when n == const
+        (then the general path returns the very same table)."""
+        t = st.test
+        if not (len(st.body) == 1 and isinstance(st.body[0], ast.Return) and not st.orelse and isinstance(t, ast.Compare) and len(t.ops) == 1
+                and isinstance(t.ops[0], ast.Eq)):
+            return False
+        try:
+            l, r = self.expr(t.left), self.expr(t.comparators[0])
+            v = self.expr(st.body[0].value)
+        except AnalysisError:
+            return False
+        if not (isinstance(l, SV) and isinstance(r, SV) and not l.labels and not r.labels and r.e.is_number and not l.e.is_number):
+            return False
+        if getattr(v, "table", None) is None:
+            return False
+        self.pending_early = getattr(self, "pending_early", [])
+        self.pending_early.append(dict(node=st, sym=l.e, const=r.e, n_stores=len(self.stores), table=v.table))
+        return True
+
+    def check_early_returns(self, ret_value, node):
+        for pe in getattr(self, "pending_early", []):
+            if getattr(ret_value, "table", None) is not pe["table"]:
+                self.err("an early return hands back the recursion table but the function's final return does not", pe["node"])
+            sub = {pe["sym"]: pe["const"]}
+            tab = pe["table"]
+            sized = type("T", (), {"sizes": [sz.subs(sub) if sz is not None else None for sz in tab.sizes], "labels": tab.labels})()
+            for s_ in self.stores[pe["n_stores"]:]:
+                if s_.table is not tab:
+                    continue
+                probe = Store(s_.func, s_.node, s_.table, s_.index, s_.rhs, [(v_, lo.subs(sub), hi.subs(sub)) for v_, lo, hi in s_.loops])
+                if not store_outside_table(probe, sized):
+                    raise LabelMismatch(f"the early return under `{ast.unparse(pe['node'].test)}` skips the store `{s_.text[:60]}`, which the general path "
+                                        f"performs for that case too: the returned table differs", pe["node"])
+            self.shared.setdefault("verified_early_returns", []).append((self.func, pe["node"]))
 
     def select_branch(self, st):
         """An undecided `if` whose branches only bind names (no store, return, loop): both are evaluated and every name bound
@@ -461,15 +511,26 @@ class Extractor:
             # the first iterations take a different branch (`if i > 0:`): they are run one by one, the rest symbolically
             for k in range(int(lo), split):
                 self.env[st.target.id] = SV(sp.Integer(k), [])
-                for s in st.body:
-                    self.stmt(s)
+                # this iteration exists only if the loop reaches it: recorded as a loop over [k, min(hi, k + 1)) of a variable nothing uses
+                self.loops.append((sp.Symbol("__once", integer=True), sp.Integer(k), sp.Min(hi, k + 1)))
+                self.shared.setdefault("loop_ids", []).append(next(self.counter))
+                try:
+                    for s in st.body:
+                        self.stmt(s)
+                finally:
+                    self.loops.pop()
+                    self.shared["loop_ids"].pop()
             lo = sp.Integer(split)
         v = sp.Symbol(st.target.id, integer=True)
         self.loops.append((v, lo, hi))
+        self.shared.setdefault("loop_ids", []).append(next(self.counter))  # one id per dynamic instance of a symbolic loop
         self.env[st.target.id] = SV(v, [])
-        for s in st.body:
-            self.stmt(s)
-        self.loops.pop()
+        try:
+            for s in st.body:
+                self.stmt(s)
+        finally:
+            self.loops.pop()
+            self.shared["loop_ids"].pop()
 
     # ------------------------------------------------------------------ table stores
     def index_of(self, table, sl, node):
@@ -541,6 +602,8 @@ class Extractor:
             raise
         s = Store(self.func, st, table, index, rhs, list(self.loops))
         s.target_labels = self.labels_after_index(table, index)
+        s.seq = next(self.counter)  # program order among stores, table loads and gathers (one shared counter)
+        s.loop_ids = list(self.shared.setdefault("loop_ids", []))
         self.stores.append(s)
 
     # ------------------------------------------------------------------ expressions
@@ -560,7 +623,18 @@ class Extractor:
             return v
         if isinstance(e, ast.Name):
             if e.id in self.env:
-                return self.env[e.id]
+                v = self.env[e.id]
+                if isinstance(v, Slots):
+                    if any(x is None for x in v.items):
+                        self.err(f"`{e.id}` (np.empty) is read before every block `{e.id}[k]` is stored", e)
+                    fake = ast.Call(func=ast.Attribute(value=ast.Name(id="np", ctx=ast.Load()), attr="array", ctx=ast.Load()),
+                                    args=[ast.Name(id="__slots_" + e.id, ctx=ast.Load())], keywords=[])
+                    ast.copy_location(fake, v.node)
+                    ast.fix_missing_locations(fake)
+                    self.env["__slots_" + e.id] = list(v.items)
+                    v = self.numpy("array", fake)
+                    self.env[e.id] = v
+                return v
             g = self.func.module.globals.get(e.id)
             if isinstance(g, ast.Constant) and isinstance(g.value, (int, float)) and not isinstance(g.value, bool):
                 return self.expr(g)  # module-level numeric constant
@@ -856,7 +930,8 @@ class Extractor:
             index = self.index_of(table, e.slice, e)
             rid = next(self.counter)
             labels = self.labels_after_index(table, index)
-            self.refs[rid] = dict(table=table, index=index, labels=labels, node=e, func=self.func)
+            self.refs[rid] = dict(table=table, index=index, labels=labels, node=e, func=self.func, loops=list(self.loops),
+                                  loop_ids=list(self.shared.setdefault("loop_ids", [])))
             out = SV(TabRef(sp.Integer(rid)), labels)
             out.table_ref = rid
             return out
@@ -1154,6 +1229,17 @@ class Extractor:
                 self.err("**kwargs in a kernel call", e)
             env[k.arg] = self.expr(k.value)
         missing = [p for p in params if p not in env]
+        if missing:
+            # parameters with a constant default (None, a number, True/False) take it
+            a_ = g.node.args
+            pos = a_.posonlyargs + a_.args
+            defaults = dict(zip([x.arg for x in pos][len(pos) - len(a_.defaults):], a_.defaults))
+            defaults.update({x.arg: d_ for x, d_ in zip(a_.kwonlyargs, a_.kw_defaults) if d_ is not None})
+            for p_ in list(missing):
+                d_ = defaults.get(p_)
+                if isinstance(d_, ast.Constant) and (d_.value is None or isinstance(d_.value, (bool, int, float))):
+                    env[p_] = self.expr(d_)
+                    missing.remove(p_)
         if missing:
             self.err(f"call of {g.name} without {missing}", e)
         sub = Extractor(g, env, rule=self.rule, repo=self.repo, shared=self.shared)
@@ -1495,6 +1581,16 @@ class Extractor:
                 sid = next(self.counter)
                 self.shared.setdefault("stacks", {})[sid] = [x.e for x in items]
                 return SV(Stack(sp.Integer(sid), sp.Symbol("stackrow")), [Lab(("stack", sid, len(items)))] + list(labs))
+        if short == "empty" and e.args:
+            shp = e.args[0]
+            first = None
+            while isinstance(shp, ast.BinOp) and isinstance(shp.op, ast.Add):
+                shp = shp.left  # (n, a, b) + other.shape[k:]
+            if isinstance(shp, ast.Tuple) and shp.elts and isinstance(shp.elts[0], ast.Constant) and isinstance(shp.elts[0].value, int):
+                first = shp.elts[0].value
+            if first is None or not 1 <= first <= 16:
+                self.err("np.empty whose leading extent is not a small constant", e)
+            return Slots(first, e)
         if short in ("tensordot", "transpose", "concatenate", "array"):
             # plumbing after the recursion: opaque here (typed by AXTYPE); remember what it was built from
             args = [self.expr(a) for a in e.args[:1]]
@@ -1593,6 +1689,14 @@ class ClsSym:
 
 class _Returned(Exception):
     pass
+
+
+class Slots:
+    """np.empty((n, ...)) that is filled by `out[k] = block` for every constant k: the same as np.array([block_0, ..., block_{n-1}])"""
+
+    def __init__(self, n, node):
+        self.items = [None] * n
+        self.node = node
 
 
 class ShapeTuple:
